@@ -57,7 +57,10 @@ impl Parsable for EntryStoreBuilder {
                 let layout = Layout::parse(parser)?;
                 Ok(layout)
             }
-            _ => todo!(),
+            _ => Err(format_error!(
+                "Entry store kinds other than plain are not supported",
+                parser
+            )),
         }
     }
 }
@@ -69,6 +72,24 @@ impl DataBlockParsable for EntryStore {
     type Output = Self;
 
     fn finalize(layout: Layout, header_offset: Offset, reader: &Reader) -> Result<Self> {
+        // The entry data lie just before the tail: their declared size must fit there.
+        let crc_size = BlockCheck::Crc32.size() as u64;
+        let (entry_size, extra) = if layout.is_entry_checked {
+            (layout.entry_size.into_u64() + crc_size, 0)
+        } else {
+            (layout.entry_size.into_u64(), crc_size)
+        };
+        let fits = layout
+            .entry_count
+            .into_u64()
+            .checked_mul(entry_size)
+            .and_then(|size| size.checked_add(extra))
+            .is_some_and(|size| size <= header_offset.into_u64());
+        if !fits {
+            return Err(format_error!(
+                "Entry store data is declared bigger than what is before the store tail"
+            ));
+        }
         let entry_reader = if layout.is_entry_checked {
             let data_size =
                 layout.entry_count * (layout.entry_size + BlockCheck::Crc32.size()).into();
